@@ -68,6 +68,8 @@ STRENGTHENED = {
     "C17-5": "twin configurations with an explicitly time-dependent event (moving section); a value-level difference at a trace event is a violation even when the decisions coincide",
     "C17-6": "TLC's Hamiltonians rescaled to large units by powers of two (coefficients down to 2^-60): S * rhs_s(S z) = rhs(z) bit for bit",
     "C18-5": "direct `_substitute_coordinates(x, M)` with non-symmetric integer / Gaussian-integer matrices against M x (the same change is C06-5, caught by C06)",
+    "C20-3": "deep probe family behind the save/load prefix (two more writers, a re-load, every read) and a read battery that reads the ATTRIBUTES before any computing read refreshes them",
+    "C20-6": "two user periods that differ by 4e-6 relative, and absolute checks next to the twin comparison (the twin runs the same code): an assigned period is the period; the period after `correct()` is the one the correction found",
     "C20-2": "`spec/objects/probe/MCOrbitProbe.tla`: every writer out of every core state followed by every read",
 }
 
